@@ -16,6 +16,9 @@ import (
 )
 
 func main() {
+	// C07: a worker child may be told to run under a given hash-seed vector. This must happen before
+	// any hashed value is built (DESIGN §2 "Knob: hash seeds").
+	core.InstallHashSeedsFromEnv()
 	if len(os.Args) < 3 {
 		fmt.Fprintln(os.Stderr, "usage: vcheck run|worker|replay <ID> [flags]; known:", core.IDs())
 		os.Exit(2)
